@@ -27,7 +27,7 @@ ASSUMPTIONS = ["pyfftw is replaced by /verif/shims/pyfftw (float32 in / complex6
                "the harness owns worker count and chunk boundaries, not the OS interleaving of the workers",
                "with more than one worker the saturation flags of batch-final samples are not compared (two batches write them, "
                "the later writer wins, and the order is schedule dependent)"]
-BUDGET = {"quick": 48, "thorough": 1500}
+BUDGET = {"quick": 72, "thorough": 1500}
 SHRINK = {"quick": False, "thorough": False}
 TAPER = 1024
 
